@@ -6,7 +6,7 @@ VP8Packet), about the model in `Model/Codec/Vp8.lean`.
 
   C06  c06_encode_some, c06_payload_le, c06_seq_consecutive, c06_seq_many, c06_pt_ssrc, c06_marker_only_last
   C08  c08_inv_init, c08_inv_decode, c08_retained_le, c08_fragment_count_le, c08_out_le
-  C03  c03_roundtrip (from ANY decoder state), c03_roundtrip_many
+  C03  c03_roundtrip (from ANY decoder state), c03_roundtrip_many, c03_roundtrip_list
   C07  c07_flush, c07_resync
 
 All statements quantify over every frame, payload limit, sequence number, packet and history.
@@ -408,6 +408,44 @@ theorem c03_roundtrip_many (e e1 e2 : Enc) (f g : Bytes) (ps qs : List Pkt) (d :
   refine ⟨d2, ?_, hcl⟩
   rw [runDec_append, hr1]
   simp only [hr2]
+
+/-- **C03, any series of frames** through the same encoder / decoder pair, from ANY decoder state:
+the decoder returns exactly the frames, in order, answers "more packets needed" everywhere else and
+ends clean (for a non-empty series). -/
+theorem c03_roundtrip_list (e e' : Enc) (fs : List Bytes) (ps : List Pkt) (d : Dec) (hc : ValidCfg e.cfg)
+    (hf : ∀ f ∈ fs, ValidFrame f) (h : encodeMany e fs = some (e', ps)) :
+    okFrames (runDec d ps).2 = fs ∧ OnlyMoreOk (runDec d ps).2 ∧ (fs ≠ [] → Clean (runDec d ps).1) := by
+  induction fs generalizing e ps d with
+  | nil =>
+    simp [encodeMany] at h
+    obtain ⟨_, h2⟩ := h
+    subst h2
+    exact ⟨rfl, by intro r hr; simp [runDec] at hr, fun h => absurd rfl h⟩
+  | cons f fs ih =>
+    simp only [encodeMany] at h
+    split at h
+    · simp at h
+    · rename_i e1 qs he
+      split at h
+      · simp at h
+      · rename_i e2 rs hm
+        simp only [Option.some.injEq, Prod.mk.injEq] at h
+        obtain ⟨h1, h2⟩ := h
+        subst h1 h2
+        obtain ⟨d1, hr1, hc1⟩ := c03_roundtrip e e1 f qs d hc (hf f (by simp)) he
+        have hcfg : ValidCfg e1.cfg := by rw [(c06_seq_consecutive e e1 f qs he).2.2]; exact hc
+        obtain ⟨g1, g2, g3⟩ := ih e1 rs d1 hcfg (fun x hx => hf x (by simp [hx])) hm
+        simp only [runDec_append, hr1]
+        refine ⟨?_, onlyMoreOk_append _ _ (onlyMoreOk_frame _ _) g2, ?_⟩
+        · rw [okFrames_append, okFrames_frame, g1]; rfl
+        · intro _
+          cases fs with
+          | nil =>
+            simp [encodeMany] at hm
+            obtain ⟨_, hm2⟩ := hm
+            subst hm2
+            simpa [runDec] using hc1
+          | cons a t => exact g3 (by simp)
 
 /-! ## non-vacuity -/
 
